@@ -28,19 +28,20 @@ theorem at_most_one (c : Cfg) (s : St) (h : Reach c s) :
 theorem spawn_only_when_none (c : Cfg) (s s' : St) (l : Label) (h : Reach c s)
     (hs : step c s l = some s') (hne : s'.spawns ≠ s.spawns) :
     s.run = none ∧ s.live = 0 ∧ s'.spawns = s.spawns + 1 ∧
-    ∃ inp, l = .cycle inp ∧ inp.marked = false ∧ inp.matching = true ∧ s.forever = false := by
+    ∃ inp, l = .cycle inp ∧ inp.marked = false ∧ inp.matching = true ∧ s.forever = false ∧
+      blockedIn c inp s = false := by
   have hinv := reach_inv h
   have hsp := step_spawns hinv l hs
   cases l with
   | cycle inp =>
     simp only at hsp
-    by_cases hc : (!inp.marked && inp.matching && !s.forever && s.run.isNone) = true
+    by_cases hc : (!inp.marked && inp.matching && !s.forever && s.run.isNone && !blockedIn c inp s) = true
     · simp only [hc, if_true] at hsp
       simp only [Bool.and_eq_true, Bool.not_eq_true', Option.isNone_iff_eq_none] at hc
-      obtain ⟨⟨⟨hm, hma⟩, hf⟩, hn⟩ := hc
+      obtain ⟨⟨⟨⟨hm, hma⟩, hf⟩, hn⟩, hnb⟩ := hc
       have hl := hinv.live
       simp [hn] at hl
-      exact ⟨hn, hl, hsp, inp, rfl, hm, hma, hf⟩
+      exact ⟨hn, hl, hsp, inp, rfl, hm, hma, hf, hnb⟩
     · simp only [hc] at hsp
       exact absurd (by simpa using hsp) hne
   | tick d => exact absurd (by simpa using hsp) hne
@@ -53,17 +54,32 @@ theorem spawn_only_when_none (c : Cfg) (s s' : St) (l : Label) (h : Reach c s)
   | resume => exact absurd (by simpa using hsp) hne
   | kFinal => exact absurd (by simpa using hsp) hne
   | failForGood => exact absurd (by simpa using hsp) hne
+  | exitBegin => exact absurd (by simpa using hsp) hne
 
 /-! ## started when the object appears / starts matching -/
 
-/-- A cycle on a live (unmarked) object whose body matches, for a handler that has not exited on
-    its own and has no instance, creates one. -/
-theorem started_on_match (c : Cfg) (s : St) (inp : CycIn) (h : Reach c s) (hk : s.known = true)
-    (hm : inp.marked = false) (hmatch : inp.matching = true) (hf : s.forever = false) (hn : s.run = none) :
+/-- A cycle for which `spawn_daemons` does not return at once (see `blockedIn`), on an unmarked object whose
+    body matches, for a handler that has not exited on its own and has no instance, creates one. -/
+theorem started_unless_blocked (c : Cfg) (s : St) (inp : CycIn) (h : Reach c s) (hk : s.known = true)
+    (hm : inp.marked = false) (hmatch : inp.matching = true) (hf : s.forever = false) (hn : s.run = none)
+    (hnb : blockedIn c inp s = false) :
     ∃ s', step c s (.cycle inp) = some s' ∧ s'.spawns = s.spawns + 1 := by
   refine ⟨(cycle c inp s).1, by simp [step, hk], ?_⟩
   have := (cycle_spec (reach_inv h) inp).2.2.2.2.1
-  simpa [hm, hmatch, hf, hn] using this
+  simpa [hm, hmatch, hf, hn, hnb] using this
+
+/-- A cycle on a live (unmarked, not DELETED) object whose body matches, while the operator is not exiting,
+    for a handler that has not exited on its own and has no instance, creates one. -/
+theorem started_on_match (c : Cfg) (s : St) (inp : CycIn) (h : Reach c s) (hk : s.known = true)
+    (hx : s.exitAt = none) (hdel : inp.deleted = false)
+    (hm : inp.marked = false) (hmatch : inp.matching = true) (hf : s.forever = false) (hn : s.run = none) :
+    ∃ s', step c s (.cycle inp) = some s' ∧ s'.spawns = s.spawns + 1 := by
+  refine started_unless_blocked c s inp h hk hm hmatch hf hn ?_
+  have hg : s.goneAt = none := by
+    cases hg : s.goneAt with
+    | none => rfl
+    | some g => have := (reach_inv h).goneKnown (by rw [hg]; rfl); rw [hk] at this; cases this
+  simp [blockedIn, hx, hdel, hg]
 
 /-! ## an instance that exits on its own is not restarted -/
 
@@ -149,8 +165,8 @@ theorem staged_monotone (c : Cfg) (s s' : St) (l : Label) (i i' : Inst) (h : Rea
 /-! ## every reason to stop sets the flag -/
 
 /-- marked for deletion / stops matching (or has exited on its own) / operator paused: whatever
-    instance is still running after the cycle carries that reason; the daemon killer's
-    `stop_daemon` (pause or exit) sets its reason at once. -/
+    instance is still running after the cycle carries that reason; a background `stop_daemon` (the
+    daemon killer's on pause or exit, the one for a gone object) sets its reason at once. -/
 theorem stop_reasons (c : Cfg) (s s' : St) (h : Reach c s) :
     (∀ inp, step c s (.cycle inp) = some s' → inp.marked = true →
         ∀ i', s'.run = some i' → Reason.deleted ∈ i'.reasons) ∧
@@ -159,7 +175,7 @@ theorem stop_reasons (c : Cfg) (s s' : St) (h : Reach c s) :
     (∀ inp, step c s (.cycle inp) = some s' → inp.marked = false → inp.paused = true →
         ∀ i', s'.run = some i' → Reason.pausing ∈ i'.reasons) ∧
     (∀ r, step c s (.kBegin r) = some s' →
-        (r = .pausing ∨ r = .exiting) ∧ ∃ i', s'.run = some i' ∧ r ∈ i'.reasons) := by
+        (r = .pausing ∨ r = .exiting ∨ r = .deleted) ∧ ∃ i', s'.run = some i' ∧ r ∈ i'.reasons) := by
   have hinv := reach_inv h
   refine ⟨?_, ?_, ?_, ?_⟩
   · intro inp hs hm
@@ -178,9 +194,9 @@ theorem stop_reasons (c : Cfg) (s s' : St) (h : Reach c s) :
     · cases hs; exact (cycle_spec hinv inp).2.2.2.2.2.2.2.2 hm hp
     · cases hs
   · intro r hs
-    obtain ⟨i, _, _, _, hr, _, h1⟩ := step_kBegin hs
+    obtain ⟨i, _, hmb, h1⟩ := step_kBegin hs
     subst h1
-    exact ⟨hr, _, rfl, (mem_set (i := i) (r := r) (now := s.now)).mpr (Or.inr rfl)⟩
+    exact ⟨mayBegin_primary hmb, _, rfl, (mem_set (i := i) (r := r) (now := s.now)).mpr (Or.inr rfl)⟩
 
 /-! ## when the operator pauses: the stages are gone through, whoever set the flag
 
@@ -285,52 +301,141 @@ example : ∃ s i, runs { backoff := none, timeout := none, polling := 3840 } (S
 
 /-- the killer sweeps only at its rounds, and not at all once it is gone -/
 example : runs cfgP (St.init 0) [.cycle { evP with paused := false }, .tick 65, .pause, .kBegin .pausing, .tick 10, .kBegin .pausing] = none ∧
-    runs cfgP (St.init 0) [.cycle { evP with paused := false }, .kFinal, .kBegin .exiting] = none := by decide
+    runs cfgP (St.init 0) [.cycle { evP with paused := false }, .exitBegin, .kBegin .exiting, .kFinal, .kBegin .exiting] = none ∧
+    -- …nor does it leave before its exit sweep has covered the daemon
+    runs cfgP (St.init 0) [.cycle { evP with paused := false }, .exitBegin, .kFinal] = none ∧
+    (runs cfgP (St.init 0) [.cycle { evP with paused := false }, .exitBegin, .kBegin .exiting, .kFinal]).isSome = true := by decide
 
 end PauseExamples
 
-/-! ## …but a daemon spawned while the operator is exiting is never asked to stop (finding F13)
+/-! ## when the operator exits: nothing is spawned any more, everything listed is stopped (F13 repaired)
 
-  FULL CLAUSE (false of the code): "an instance is asked to stop when the operator exits". The daemon
-  killer's exit sweep (`finally:`) runs once. The watchers then deplete their queues: a worker that still
-  processes an event of an object whose daemon the sweep has just stopped re-spawns it
-  (`process_spawning_cause` never looks at the operator's state — the pause has `pause_daemons`, the exit
-  has nothing), and nobody is left to stop the new instance: it runs through the cleanup handlers until
-  the hung-task sweep cancels it. -/
+  The daemon killer's `finally:` first marks every memory (`mark_operator_exiting`, also the memories created
+  later), then sweeps once: `stop_daemon(OPERATOR_EXITING)` for every listed daemon (label `exitBegin`, then
+  `kBegin .exiting` in the same instant — the clock does not advance before the sweep has covered what it must:
+  `tickOk`). `spawn_daemons` returns at once for a marked memory. Both are tied to the AST
+  (`Tie.marks_exiting`) and compared on every observed cycle. -/
 
-/-- the processing cycle is blind to the operator's exit: `started_on_match` has no hypothesis about the
-    killer, so it spawns also after the killer has gone -/
-theorem respawned_while_exiting (c : Cfg) (s : St) (inp : CycIn) (h : Reach c s) (_hd : s.killerDone = true)
-    (hk : s.known = true) (hm : inp.marked = false) (hmatch : inp.matching = true) (hf : s.forever = false)
+/-- once the operator is exiting (or the object is gone), NO label list creates an instance again, and if
+    nothing runs, nothing ever runs again -/
+theorem nothing_spawned_while_exiting (c : Cfg) (s s' : St) (ls : List Label) (h : Reach c s)
+    (hm : c.marksExiting = true) (hx : s.exitAt.isSome = true) (hr : runs c s ls = some s') :
+    s'.spawns = s.spawns ∧ (s.run = none → s'.run = none) :=
+  (blocked_runs ls (reach_inv h) (Or.inl ⟨hm, hx⟩) hr).2
+
+/-- In EVERY reachable state after the instant `x` at which the killer's exit sweep began (or once the killer
+    is gone), whatever instance of a known memory is still running has been asked to stop with OPERATOR_EXITING
+    by a `stop_daemon` started at `x`, and the stages of that coroutine have happened by their deadlines
+    (cancelled by `x + backoff` if there is a timeout, abandoned by `x + backoff + timeout`) or the clock
+    has not passed them yet. No hypothesis about the run. -/
+theorem stopped_when_operator_exits (c : Cfg) (s : St) (i : Inst) (x : Tick) (h : Reach c s)
+    (hb : 0 ≤ c.b0) (ht : 0 ≤ c.t0) (hm : c.marksExiting = true)
+    (hx : s.exitAt = some x) (hk : s.known = true) (hi : s.run = some i) (hpast : x < s.now ∨ s.killerDone = true) :
+    Reason.exiting ∈ i.reasons ∧ x ∈ i.kstarts ∧
+    (c.timeout.isSome = true →
+      (∃ tc, i.cancelAt = some tc ∧ tc ≤ x + c.b0) ∨ (i.cancelAt = none ∧ s.now ≤ x + c.b0)) ∧
+    ((∃ ta, i.abandonAt = some ta ∧ ta ≤ x + c.b0 + c.t0) ∨ (i.abandonAt = none ∧ s.now ≤ x + c.b0 + c.t0)) := by
+  have t := reach_tinv hb ht h
+  have hmem : x ∈ i.kstarts ∧ Reason.exiting ∈ i.reasons := by
+    rcases t.exit x i hx hi (by simp [St.exitDue, hk, hm]) with h1 | ⟨h1, h2⟩
+    · exact h1
+    · exfalso
+      rcases hpast with hp | hp
+      · rw [h1] at hp; exact absurd hp (Int.lt_irrefl _)
+      · rw [h2] at hp; cases hp
+  exact ⟨hmem.2, hmem.1, t.stages i hi x hmem.1⟩
+
+/-- once the killer is gone, it starts no `stop_daemon` any more -/
+theorem no_killer_after_final_sweep (c : Cfg) (s : St) (hd : s.killerDone = true) :
+    step c s (.kBegin .pausing) = none ∧ step c s (.kBegin .exiting) = none := by
+  constructor <;> (simp only [step]; cases s.run <;> simp [St.mayBegin, hd])
+
+/-- HISTORICAL (finding F13, fixed by 1d3a667; `marksExiting = false`): the processing cycle was blind to the
+    operator's exit, so it spawned also after the killer had gone — an instance nobody was left to stop. -/
+theorem respawned_while_exiting (c : Cfg) (s : St) (inp : CycIn) (h : Reach c s) (hold : c.marksExiting = false)
+    (hd : s.killerDone = true) (hk : s.known = true) (hdel : inp.deleted = false)
+    (hm : inp.marked = false) (hmatch : inp.matching = true) (hf : s.forever = false)
     (hn : s.run = none) : ∃ s', step c s (.cycle inp) = some s' ∧ s'.spawns = s.spawns + 1 ∧ s'.killerDone = true := by
-  obtain ⟨s', hs, hsp⟩ := started_on_match c s inp h hk hm hmatch hf hn
+  have hg : s.goneAt = none := by
+    cases hg : s.goneAt with
+    | none => rfl
+    | some g => have := (reach_inv h).goneKnown (by rw [hg]; rfl); rw [hk] at this; cases this
+  obtain ⟨s', hs, hsp⟩ := started_unless_blocked c s inp h hk hm hmatch hf hn (by simp [blockedIn, hold, hdel, hg])
   refine ⟨s', hs, hsp, ?_⟩
   obtain ⟨h1, _⟩ := step_cycle hs
   subst h1
-  rw [(cycle_frame (reach_inv h) inp).2.1]; exact _hd
+  rw [(cycle_frame (reach_inv h) inp).2.1]; exact hd
 
-/-- once the killer is gone, no label list ever starts a `stop_daemon` again -/
-theorem no_killer_after_final_sweep (c : Cfg) (s : St) (r : Reason) (hd : s.killerDone = true) :
-    step c s (.kBegin r) = none := by
-  simp only [step]
-  cases s.run <;> simp [hd]
+def exitRun : List Label :=
+  [.cycle evEx0, .tick 100, .exitBegin, .kBegin .exiting, .exit, .kFinal, .tick 10, .cycle evEx0, .tick 5000]
 
-/-- witness: daemon running, exit sweep flags it (tick 100), it ends, the killer is gone; a queued event of
-    the object is processed at 110: a new instance, never asked to stop, 5 000 ticks later still unasked -/
+/-- HISTORICAL witness of F13 (corpus/C09/F13.json is its regression): daemon running, exit sweep flags it
+    (tick 100), it ends, the killer is gone; a queued event of the object is processed at 110: a new instance,
+    never asked to stop, 5 000 ticks later still unasked -/
 theorem exit_respawn_witness :
-    ∃ s i, runs cfgEx0 (St.init 0) [.cycle evEx0, .tick 100, .kBegin .exiting, .exit, .kFinal, .tick 10, .cycle evEx0,
-      .tick 5000] = some s ∧ s.killerDone = true ∧ s.spawns = 2 ∧ s.live = 1 ∧ s.run = some i ∧ i.reasons = [] ∧ i.since = 110 := by
+    ∃ s i, runs { cfgEx0 with marksExiting := false } (St.init 0) exitRun = some s ∧
+      s.killerDone = true ∧ s.spawns = 2 ∧ s.live = 1 ∧ s.run = some i ∧ i.reasons = [] ∧ i.since = 110 := by
   exact ⟨_, _, rfl, by decide, by decide, by decide, rfl, by decide, by decide⟩
 
-/-! ## …except when the object disappears without the deletion mark (finding F10)
+/-- the same labels in the current tree: the queued event spawns nothing -/
+example : ∃ s, runs cfgEx0 (St.init 0) exitRun = some s ∧ s.spawns = 1 ∧ s.live = 0 ∧ s.run = none :=
+  ⟨_, rfl, by decide, by decide, by decide⟩
 
-  FULL CLAUSE (false of the code): "an instance is asked to stop when the object disappears".
-  A DELETED event whose body has no `deletionTimestamp` (deleted before the finalizer landed, or
-  after the finalizer was removed by force) takes the `spawn_daemons` branch and the memory is
-  forgotten: nobody can ever set the stopper. -/
+/-- the hypotheses of `stopped_when_operator_exits` are met, and the urgency is real: after `exitBegin` the
+    clock does not advance before the sweep has reached the daemon, nor past the backoff without cancelling -/
+example : (∃ s i, runs cfgEx0 (St.init 0) [.cycle evEx0, .tick 100, .exitBegin, .kBegin .exiting, .tick 64, .kCancel 100, .tick 1] = some s ∧
+      s.exitAt = some 100 ∧ s.known = true ∧ s.run = some i ∧ i.cancelAt = some 164) ∧
+    runs cfgEx0 (St.init 0) [.cycle evEx0, .tick 100, .exitBegin, .tick 1] = none ∧
+    runs cfgEx0 (St.init 0) [.cycle evEx0, .tick 100, .exitBegin, .kBegin .exiting, .tick 65] = none :=
+  ⟨⟨_, _, rfl, by decide, by decide, rfl, by decide⟩, by decide, by decide⟩
 
-/-- After a DELETED event without the deletion mark on a matching object, the running instance has
-    not been asked to stop and the memory is out of the inventory… -/
+/-! ## when the object disappears — also without the deletion mark (F10 repaired)
+
+  A DELETED event whose body has no `deletionTimestamp` (deleted before the finalizer landed, or after the
+  finalizer was removed by force) takes the `spawn_daemons` branch and the memory is forgotten: no cycle and
+  no sweep of the killer reaches the daemons any more. Since 25da2b9 `process_resource_event` calls
+  `stop_daemons_of_gone_object` right after `memories.forget`: the memory is marked `object_gone` (nothing is
+  spawned for it) and a background `stop_daemon(RESOURCE_DELETED)` is started for every running daemon
+  (label `kBegin .deleted`, in the instant of the event: `tickOk`). Tied to the AST (`Tie.stops_gone`). -/
+
+/-- processing the DELETED event marks the object as gone at that instant, forgets the memory, spawns nothing -/
+theorem gone_at_deleted_event (c : Cfg) (s s' : St) (inp : CycIn) (h : Reach c s) (hc : c.stopsGone = true)
+    (hs : step c s (.cycle inp) = some s') (hd : inp.deleted = true) :
+    s'.goneAt = some s.now ∧ s'.known = false ∧ s'.spawns = s.spawns := by
+  obtain ⟨h1, _⟩ := step_cycle hs
+  subst h1
+  have spec := cycle_spec (reach_inv h) inp
+  obtain ⟨_, _, _, _, _, fg⟩ := cycle_frame (reach_inv h) inp
+  refine ⟨by rw [fg, hd]; rfl, by rw [spec.2.2.2.1, hd]; simp, ?_⟩
+  rw [spec.2.2.2.2.1]
+  simp [blockedIn, hc, hd]
+
+/-- nothing is ever spawned for a gone object -/
+theorem nothing_spawned_for_gone_object (c : Cfg) (s s' : St) (ls : List Label) (h : Reach c s)
+    (hc : c.stopsGone = true) (hg : s.goneAt.isSome = true) (hr : runs c s ls = some s') :
+    s'.spawns = s.spawns ∧ (s.run = none → s'.run = none) :=
+  (blocked_runs ls (reach_inv h) (Or.inr ⟨hc, hg⟩) hr).2
+
+/-- In EVERY reachable state after the instant `g` at which the object's DELETED event was processed — with
+    or without the deletion mark — whatever instance is still running has been asked to stop with
+    RESOURCE_DELETED by a `stop_daemon` started at `g`, and the stages of that coroutine have happened by
+    their deadlines or the clock has not passed them yet. No hypothesis about the run. -/
+theorem stopped_when_object_disappears (c : Cfg) (s : St) (i : Inst) (g : Tick) (h : Reach c s)
+    (hb : 0 ≤ c.b0) (ht : 0 ≤ c.t0) (hc : c.stopsGone = true)
+    (hg : s.goneAt = some g) (hi : s.run = some i) (hpast : g < s.now) :
+    Reason.deleted ∈ i.reasons ∧ g ∈ i.kstarts ∧
+    (c.timeout.isSome = true →
+      (∃ tc, i.cancelAt = some tc ∧ tc ≤ g + c.b0) ∨ (i.cancelAt = none ∧ s.now ≤ g + c.b0)) ∧
+    ((∃ ta, i.abandonAt = some ta ∧ ta ≤ g + c.b0 + c.t0) ∨ (i.abandonAt = none ∧ s.now ≤ g + c.b0 + c.t0)) := by
+  have t := reach_tinv hb ht h
+  have hmem : g ∈ i.kstarts ∧ Reason.deleted ∈ i.reasons := by
+    rcases t.gone hc g i hg hi with h1 | h1
+    · exact h1
+    · exfalso; rw [h1] at hpast; exact absurd hpast (Int.lt_irrefl _)
+  exact ⟨hmem.2, hmem.1, t.stages i hi g hmem.1⟩
+
+/-- HISTORICAL (finding F10, fixed by 25da2b9): in the cycle of a DELETED event without the deletion mark on a
+    matching object the running instance is not asked to stop and the memory leaves the inventory… -/
 theorem gone_unmarked_not_stopped (c : Cfg) (s : St) (i : Inst) (inp : CycIn) (hf : s.forever = false)
     (hi : s.run = some i) (hclean : i.reasons = [] ∧ i.kstarts = [])
     (hd : inp.deleted = true) (hm : inp.marked = false) (hmatch : inp.matching = true) (hp : inp.paused = false) :
@@ -342,19 +447,32 @@ theorem gone_unmarked_not_stopped (c : Cfg) (s : St) (i : Inst) (inp : CycIn) (h
   intro k hk
   rw [hrun] at hk; cases hk; exact hclean
 
-/-- …and from then on no label list ever sets a stop reason: the instance runs until it ends by itself. -/
-theorem orphan_never_stopped (c : Cfg) (s s' : St) (ls : List Label) (hk : s.known = false)
+/-- …and without `stop_daemons_of_gone_object` (`stopsGone = false`) no label list ever set a stop reason from
+    then on: the instance ran until it ended by itself. -/
+theorem orphan_never_stopped (c : Cfg) (s s' : St) (ls : List Label) (hold : c.stopsGone = false) (hk : s.known = false)
     (hclean : ∀ i, s.run = some i → i.reasons = [] ∧ i.kstarts = [])
     (hr : runs c s ls = some s') : ∀ i', s'.run = some i' → i'.reasons = [] :=
-  fun i' hi' => ((orphan_runs ls ⟨hk, hclean⟩ hr).2 i' hi').1
+  fun i' hi' => ((orphan_runs hold ls ⟨hk, hclean⟩ hr).2 i' hi').1
 
-/-- concrete witness: created, spawned, force-deleted at tick 320, still unasked 10 000 ticks later -/
+def goneEv : CycIn := { matching := true, marked := false, paused := false, deleted := false, ex1 := Ex.never, ex2 := Ex.never }
+
+/-- HISTORICAL witness of F10 (corpus/C09/F10.json is its regression): created, spawned, force-deleted at
+    tick 320, still unasked 10 000 ticks later -/
 theorem gone_unmarked_witness :
-    let c : Cfg := { backoff := some 64, timeout := some 128, polling := 3840 }
-    let ev : CycIn := { matching := true, marked := false, paused := false, deleted := false, ex1 := Ex.never, ex2 := Ex.never }
-    ∃ s, runs c (St.init 0) [.cycle ev, .tick 320, .cycle { ev with deleted := true }, .tick 10000] = some s ∧
+    ∃ s, runs { cfgEx0 with stopsGone := false } (St.init 0)
+        [.cycle goneEv, .tick 320, .cycle { goneEv with deleted := true }, .tick 10000] = some s ∧
       s.known = false ∧ s.live = 1 ∧ s.run = some (Inst.fresh 0) := by
   refine ⟨_, rfl, ?_, ?_, ?_⟩ <;> decide
+
+/-- the same history in the current tree: the clock does not advance past the DELETED event before
+    `stop_daemon(deleted)` has started; then flag at 320, cancelled at 384 — and the hypotheses of
+    `stopped_when_object_disappears` are met -/
+example : runs cfgEx0 (St.init 0) [.cycle goneEv, .tick 320, .cycle { goneEv with deleted := true }, .tick 1] = none ∧
+    (∃ s i, runs cfgEx0 (St.init 0) [.cycle goneEv, .tick 320, .cycle { goneEv with deleted := true }, .kBegin .deleted,
+        .kSignal 320, .tick 64, .kCancel 320, .tick 10] = some s ∧ s.goneAt = some 320 ∧ s.run = some i ∧
+      i.reasons = [.deleted, .signalled, .cancelled] ∧ i.cancelAt = some 384 ∧ s.now = 394) ∧
+    runs cfgEx0 (St.init 0) [.cycle goneEv, .tick 320, .cycle { goneEv with deleted := true }, .kBegin .deleted, .tick 65] = none :=
+  ⟨by decide, ⟨_, _, rfl, by decide, rfl, by decide, by decide, by decide⟩, by decide⟩
 
 /-! ## stopping never crashes the operator
 
@@ -474,8 +592,9 @@ example : ∃ s i, runs cfgEx (St.init 0) stagedRun = some s ∧ s.run = some i 
   ⟨_, _, rfl, rfl, by decide, by decide, by decide, by decide, by decide, by decide⟩
 
 /-- hypotheses of `started_on_match`/`spawn_only_when_none` are met by the first cycle of a new object -/
-example : Reach cfgEx (St.init 0) ∧ (St.init 0).known = true ∧ (St.init 0).forever = false ∧ (St.init 0).run = none :=
-  ⟨⟨0, [], rfl⟩, rfl, rfl, rfl⟩
+example : Reach cfgEx (St.init 0) ∧ (St.init 0).known = true ∧ (St.init 0).exitAt = none ∧ (St.init 0).forever = false ∧
+    (St.init 0).run = none ∧ blockedIn cfgEx evEx (St.init 0) = false :=
+  ⟨⟨0, [], rfl⟩, rfl, rfl, rfl, rfl, by decide⟩
 
 /-- own exit, then a matching event, a pause/resume and more events: never spawned again -/
 example : ∃ s, runs cfgEx (St.init 0) [.cycle evEx, .tick 10, .exit, .tick 5, .cycle evEx,
@@ -489,13 +608,13 @@ example : ∃ s, runs cfgEx (St.init 0) [.cycle evEx, .tick 10, .cycle { evEx wi
   ⟨_, rfl, by decide, by decide, by decide⟩
 
 /-- the daemon killer on exit: reason, signal, cancel after the backoff, abandon after the timeout -/
-example : ∃ s i, runs cfgEx (St.init 0) [.cycle evEx, .tick 50, .kBegin .exiting, .kSignal 50, .tick 64, .kCancel 50,
+example : ∃ s i, runs cfgEx (St.init 0) [.cycle evEx, .tick 50, .exitBegin, .kBegin .exiting, .kSignal 50, .tick 64, .kCancel 50,
       .tick 128, .kAbandon 50] = some s ∧ s.run = some i ∧
     i.reasons = [.exiting, .signalled, .cancelled, .abandoned] ∧ i.cancelAt = some 114 ∧ i.abandonAt = some 242 :=
   ⟨_, _, rfl, rfl, by decide, by decide, by decide⟩
 
 /-- the killer cannot cancel before the backoff has passed: the label is not enabled -/
-example : runs cfgEx (St.init 0) [.cycle evEx, .tick 50, .kBegin .exiting, .tick 63, .kCancel 50] = none := by decide
+example : runs cfgEx (St.init 0) [.cycle evEx, .tick 50, .exitBegin, .kBegin .exiting, .tick 63, .kCancel 50] = none := by decide
 
 /-- a daemon spawned while the operator is paused is stopped in the same cycle (#1266) -/
 example : ∃ s i, runs cfgEx (St.init 0) [.cycle { evEx with paused := true }] = some s ∧ s.run = some i ∧
